@@ -268,7 +268,7 @@ fn query_for(r: &mut Rng, id: u16, names: &[Labels]) -> MsgSpec {
     for _ in 0..nq {
         let qtype = match r.below(10) {
             0..=1 => t::ANY,
-            2 => *r.pick(&[t::IXFR, t::AXFR, t::MAILB, t::MAILA]),
+            2 => *r.pick(&[t::IXFR, t::AXFR, t::MAILB, t::MAILA, t::NULL]),
             3..=5 => *r.pick(&[t::A, t::AAAA, t::SRV, t::TXT, t::PTR]),
             _ => *r.pick(&dnsgen::gen::TYPED),
         };
@@ -549,6 +549,15 @@ pub fn generate(seed: u64, focus: &str, profile: Profile) -> Scenario {
         nodes.push(NodeSpec { kind: NodeKind::Resolver { asyncv: r.chance(1, 3) }, start_ms: 0, script });
     }
 
+    // records some node of this scenario registers at some time (responders' resources and the
+    // discovery nodes' own instances): material for known-answer lists
+    let mut known_pool: Vec<Rec> = resp_records.iter().flatten().cloned().collect();
+    for n in &nodes {
+        if let NodeKind::Discovery { service, instance, ttl, .. } = &n.kind {
+            known_pool.extend(instance_records(&name_from_str(service), instance, *ttl, false));
+        }
+    }
+
     // ---- raw peers
     let n_raw = match focus {
         "C13" => 1 + r.usize_below(2),
@@ -577,6 +586,35 @@ pub fn generate(seed: u64, focus: &str, profile: Profile) -> Scenario {
                     names.push(hostile_name(&mut r, &name_from_str(services[0])));
                 }
                 let mut m = query_for(&mut r, qid, &names);
+                if !known_pool.is_empty() && r.chance(1, 4) {
+                    // what real queriers append: a known-answer list (RFC 6762 §7.1) and, when
+                    // probing, the proposed records in the authority section (§8.2). The
+                    // statement lets neither change the reply.
+                    for _ in 0..1 + r.usize_below(3) {
+                        let mut k = known_pool[r.usize_below(known_pool.len())].clone();
+                        match r.below(4) {
+                            0 => k.ttl = 0,
+                            1 => k.ttl /= 2,
+                            2 => k.ttl = k.ttl.saturating_add(1),
+                            _ => {}
+                        }
+                        if r.chance(1, 6) {
+                            k.cache_flush = !k.cache_flush;
+                        }
+                        match r.below(6) {
+                            0 => m.authority.push(k),
+                            1 => m.additional.push(k),
+                            _ => m.answers.push(k),
+                        }
+                    }
+                    if r.chance(1, 4) {
+                        // a question asking exactly for the first listed record (simple-dns
+                        // rejects a message whose QTYPE it has no name for, so only those)
+                        if let Some(k) = m.answers.first().cloned() {
+                            m.questions.push(Q { name: k.owner.clone(), qtype: if r.chance(1, 2) && (k.rtype == t::NULL || dnsgen::gen::TYPED.contains(&k.rtype)) { k.rtype } else { t::ANY }, qclass: if r.chance(1, 2) { k.class } else { 255 }, unicast: r.chance(1, 3) });
+                        }
+                    }
+                }
                 if r.chance(1, 6) {
                     let o = opt_rec(&mut r, hostile, &name_from_str(services[0]));
                     m.additional.push(o);
